@@ -397,6 +397,56 @@ def shard_instances(sh):
                 break
         if not st.complete:
             break
+    # a filter that is installed and then cleared again (NULL) is gone: the context prints under what it inherits
+    cases, metas = [], []
+    for f0 in firsts:
+        for (ref, inst) in [('A', store)] + insts:
+            for f in (1, 2, 3):
+                own = {}
+                lines = list(head)
+                if f0:
+                    lines.append('set_pff A %d' % f0)
+                    own[id(store)] = set(FILTERS[f0])
+                lines += ['set_pff %s %d' % (ref, f), 'set_pff %s -' % ref, 'print A']
+                own.pop(id(inst), None)
+                cases.append(Case(lines))
+                metas.append(own)
+    for c, r, own in zip(cases, drv.run(cases), metas):
+        st.evaluations += 1
+        st.transitions += 1
+        st.validated += 1
+        script = 'schema %s %s\n%s' % (sch.sid, sch.spec(), c.script())
+        if r.status in ('crash', 'hang'):
+            st.violation('%s:%s' % (r.status, engine.sanitizer_summary(r.info)), script, '', engine.excerpt(r.info))
+            continue
+        outs = r.all('out ')
+        text = dec(outs[0].split(' ')[2]) if outs else b''
+        filters_of = lambda s_, own=own: own.get(id(s_))
+        exp = rel(entries(store, own.get(id(store)), 0, filters_of))
+        got, badline = reduce_output(text)
+        if got is None or len(exp) != len(got) or not all(same(e, g) for e, g in zip(exp, got)):
+            st.violation('print-structure:cleared-filter-still-applies', script, '\n'.join(map(str, exp)), text.decode('latin-1'))
+    # a print callback that is cleared again (NULL) is gone: the built-in formatting is back for exactly that option
+    for name in ('i', 'l'):
+        if name not in pfset:
+            continue
+        sch2 = schema(pfset - {name})
+        store2 = reftext.meaning(sch2, 0, stext).store
+        c = Case(head + ['set_pf A/%s 0' % name, 'print A'])
+        r = drv.run([c])[0]
+        st.evaluations += 1
+        st.transitions += 1
+        st.validated += 1
+        script = 'schema %s %s\n%s' % (sch.sid, sch.spec(), c.script())
+        if r.status in ('crash', 'hang'):
+            st.violation('%s:%s' % (r.status, engine.sanitizer_summary(r.info)), script, '', engine.excerpt(r.info))
+            continue
+        outs = r.all('out ')
+        text = dec(outs[0].split(' ')[2]) if outs else b''
+        exp = rel(entries(store2, None, 0, lambda s_: None))
+        got, badline = reduce_output(text)
+        if got is None or len(exp) != len(got) or not all(same(e, g) for e, g in zip(exp, got)):
+            st.violation('print-structure:cleared-callback-still-used', script, '\n'.join(map(str, exp)), text.decode('latin-1'))
     if not st.samples:
         st.samples.append({'state': stext.decode('latin-1'), 'section_instances': [r for r, _ in insts], 'filter_choices_per_instance': list(choices)})
     return st.result([drv])
